@@ -699,9 +699,9 @@ ht2sp(uint8_t *buf, size_t buf_size,
 	if (NULL != buf_size_ret) {
 		(*buf_size_ret) = buf_size;
 	}
-	c_pos = buf;
+	c_pos = ret_buf; /* Convert result, not source. */
 	for (;;) {
-		c_pos = mem_chr_ptr(c_pos, buf, buf_size, '\t'); /* TAB */
+		c_pos = mem_chr_ptr(c_pos, ret_buf, buf_size, '\t'); /* TAB */
 		if (NULL == c_pos)
 			break;
 		(*c_pos) = ' '; /* SPace */
@@ -883,6 +883,8 @@ http_query_val_get_ex(const uint8_t *query, size_t query_size,
 	if ((NULL == query && 0 != query_size) ||
 	    (NULL == val_name && 0 != val_name_size))
 		return (EINVAL);
+	if (0 == query_size) /* No query (NULL, 0): nothing to find, no pointer math on NULL. */
+		return (ESPIPE);
 	val = query;
 	query_max = (query + query_size);
 	while (query_max > val && '&' == (*val)) {
